@@ -1802,6 +1802,38 @@ impl Typer {
         }
     }
 
+    /// Types the arguments of a call exactly once: against the parameter types when the callee
+    /// has a function type of matching arity, by inference otherwise. (Inferring every argument
+    /// first and then checking it again made nested calls `f(f(f(..)))` take time 2^depth.)
+    fn type_call_args(
+        &mut self,
+        genv: &PackageTypeEnv,
+        local_env: &mut LocalTypeEnv,
+        diagnostics: &mut Diagnostics,
+        args: &[hir::ExprId],
+        callee_ty: &tast::Ty,
+    ) -> (Vec<tast::Expr>, Vec<tast::Ty>) {
+        let mut args_tast = Vec::with_capacity(args.len());
+        let mut arg_types = Vec::with_capacity(args.len());
+        if let tast::Ty::TFunc { params, .. } = callee_ty
+            && params.len() == args.len()
+            && !params.is_empty()
+        {
+            for (arg, expected_ty) in args.iter().zip(params.iter()) {
+                let arg_tast = self.check_expr(genv, local_env, diagnostics, *arg, expected_ty);
+                arg_types.push(arg_tast.get_ty());
+                args_tast.push(arg_tast);
+            }
+        } else {
+            for arg in args.iter() {
+                let arg_tast = self.infer_expr(genv, local_env, diagnostics, *arg);
+                arg_types.push(arg_tast.get_ty());
+                args_tast.push(arg_tast);
+            }
+        }
+        (args_tast, arg_types)
+    }
+
     fn infer_call_expr(
         &mut self,
         genv: &PackageTypeEnv,
@@ -1878,28 +1910,10 @@ impl Typer {
                 ..
             } => {
                 let name = &hint;
-                let mut args_tast = Vec::new();
-                let mut arg_types = Vec::new();
-                for arg in args.iter() {
-                    let arg_tast = self.infer_expr(genv, local_env, diagnostics, *arg);
-                    arg_types.push(arg_tast.get_ty());
-                    args_tast.push(arg_tast);
-                }
                 if let Some(func_ty) = lookup_function_type_by_hint(genv, name.as_str()) {
                     let inst_ty = self.inst_ty(&func_ty);
-                    if let tast::Ty::TFunc { params, .. } = &inst_ty
-                        && params.len() == args.len()
-                        && !params.is_empty()
-                    {
-                        args_tast.clear();
-                        arg_types.clear();
-                        for (arg, expected_ty) in args.iter().zip(params.iter()) {
-                            let arg_tast =
-                                self.check_expr(genv, local_env, diagnostics, *arg, expected_ty);
-                            arg_types.push(arg_tast.get_ty());
-                            args_tast.push(arg_tast);
-                        }
-                    }
+                    let (args_tast, arg_types) =
+                        self.type_call_args(genv, local_env, diagnostics, args, &inst_ty);
 
                     let ret_ty = if name.as_str() == "ref" && args_tast.len() == 1 {
                         let elem_ty =
@@ -1959,6 +1973,9 @@ impl Typer {
                         ty: ret_ty,
                     }
                 } else {
+                    for arg in args.iter() {
+                        self.infer_expr(genv, local_env, diagnostics, *arg);
+                    }
                     super::util::push_ice(
                         diagnostics,
                         format!("Function {} not found in environment", name),
@@ -1975,28 +1992,9 @@ impl Typer {
                     && let Some(name) = path.last_ident()
                     && let Some(func_ty) = genv.current().get_type_of_function(name.as_str())
                 {
-                    let mut args_tast = Vec::new();
-                    let mut arg_types = Vec::new();
-                    for arg in args.iter() {
-                        let arg_tast = self.infer_expr(genv, local_env, diagnostics, *arg);
-                        arg_types.push(arg_tast.get_ty());
-                        args_tast.push(arg_tast);
-                    }
-
                     let inst_ty = self.inst_ty(&func_ty);
-                    if let tast::Ty::TFunc { params, .. } = &inst_ty
-                        && params.len() == args.len()
-                        && !params.is_empty()
-                    {
-                        args_tast.clear();
-                        arg_types.clear();
-                        for (arg, expected_ty) in args.iter().zip(params.iter()) {
-                            let arg_tast =
-                                self.check_expr(genv, local_env, diagnostics, *arg, expected_ty);
-                            arg_types.push(arg_tast.get_ty());
-                            args_tast.push(arg_tast);
-                        }
-                    }
+                    let (args_tast, arg_types) =
+                        self.type_call_args(genv, local_env, diagnostics, args, &inst_ty);
 
                     let ret_ty = if name.as_str() == "ref" && args_tast.len() == 1 {
                         let elem_ty =
